@@ -303,6 +303,115 @@ def check_readers(chk, sch):
         raise Unrecognised('C07.R', f'only {n} model key paths found in runtime.py / model.py', None)
 
 
+CONCRETE_PROGRAMS = {
+    'literal conditions': '''
+while 1:
+    break
+endwhile
+if 0:
+    x = 1
+elif 1:
+    x = 2
+elif 'a':
+    x = 3
+else:
+    x = 4
+endif
+while 0:
+    continue
+endwhile
+for v in arrayNew(1, 2):
+    if !v:
+        continue
+    elif !!v:
+        break
+    endif
+endfor
+if (1):
+    x = 5
+endif
+while -1:
+    break
+endwhile
+''',
+    'branches that all end in break / continue / return': '''
+function f(a):
+    for v in a:
+        if v:
+            continue
+        else:
+            break
+        endif
+    endfor
+    if a:
+        return 1
+    else:
+        return 2
+    endif
+endfunction
+while x:
+    if y:
+        break
+    elif z:
+        continue
+    else:
+        break
+    endif
+endwhile
+''',
+    'functions inside open blocks': '''
+if a:
+    function g(n):
+        while n:
+            if n == 2:
+                continue
+            endif
+            n = n - 1
+            break
+        endwhile
+        for i in arrayNew(1):
+            break
+        endfor
+    endfunction
+    while b:
+        function h():
+            for j in arrayNew(1):
+                continue
+            endfor
+        endfunction
+        b = h()
+    endwhile
+endif
+''',
+}
+
+
+def check_concrete_models(chk):
+    """C07.S / C07.T on concrete programs: parse_script evaluated on text (E6p) with expression models from the independent front-end; the returned model is validated against
+    the schema text and every scope's labels / jump targets are checked"""
+    from ..lintsim import ModelParseInterp, STRUCTURED
+    pmod = chk.repo.module('parser')
+    func = pmod.func('parse_script', 'C07.S')
+    sch = schema_mod.load(chk.repo.module('model'), 'BARE_SCRIPT_TYPES', 'C07.S')
+    it = ModelParseInterp(chk.repo, pmod, 'C07.S')
+    progs = dict(CONCRETE_PROGRAMS)
+    progs.update(STRUCTURED)
+    for desc, text in progs.items():
+        model = it.parse(func, text)
+        probs = schema_problems(sch, model, 'BareScript')
+        for cat, detail in probs[:2]:
+            chk.bad('C07.S', pmod, 'parse_script', f'{desc}: {cat}', f'the model parse_script returns for the program "{desc}" is not schema-valid: {cat} ({detail})')
+        if not probs:
+            chk.ok('C07.S', f'concrete program "{desc}": the returned model (with real expression models) is schema-valid')
+        for sname, stmts in scope_lists(model):
+            lp = label_problems(stmts)
+            for cat, detail in lp[:2]:
+                chk.bad('C07.T', pmod, 'parse_script', f'{desc}: {cat}', f'program "{desc}", scope {sname}: {cat}: {detail}; this surfaces as an "Unknown jump label" runtime error or an '
+                        f'unknown / unused / redefined label lint warning')
+            if not lp:
+                chk.ok('C07.T', f'concrete program "{desc}" [{sname}]: labels defined once and targeted, jump targets defined in scope')
+
+
 def run(chk):
     chk.rule('C07.S', 'emitted models and expression nodes are schema-valid', floor=300)
     chk.rule('C07.T', 'per scope: labels defined once, every jump target defined, every label targeted', floor=300)
@@ -313,6 +422,7 @@ def run(chk):
                         'induction to all nesting depths: C01.S stack discipline + C07.N monotone counter']
     pm = ParserModel(chk.repo, 'C07.S')
     sch = schema_mod.load(chk.repo.module('model'), 'BARE_SCRIPT_TYPES', 'C07.S')
+    chk.guard('C07.S', check_concrete_models, chk)
     n = run_shapes(chk, pm, sch)
     chk.extra['shapes'] = n
     chk.guard('C07.S', check_other_statements, chk, pm, sch)
